@@ -508,5 +508,5 @@ func TestReplay(t *testing.T) {
 		}
 		return o
 	}
-	kit.Replay[OrderCase](t, map[string]func(kit.RawCase) kit.Outcome{"order": kit.ReplaySub(execOrder), "stress": kit.ReplaySub(repS), "atom": kit.ReplaySub(rep(execAtom))})
+	kit.Replay[OrderCase](t, map[string]func(kit.RawCase) kit.Outcome{"order": kit.ReplaySub(execOrder), "stress": kit.ReplaySub(repS), "atom": kit.ReplaySub(rep(execAtom)), "wide": kit.ReplaySub(execWide)})
 }
